@@ -18,7 +18,7 @@ func init() {
 		Engine:    "e5layout+e2cfg+e1eval+e4range",
 		Technique: "writer/reader byte-layout extraction of the Ogg page header, OpusHead and OpusTags (fixed part by offset, variable part as a program-order sequence of field kinds) against the Ogg / RFC 7845 tables; CRC structure rules on the control-flow graphs (polynomial, table construction, update step, compute-over-zeroed-field-then-store, reader substitutes zero for exactly the stored range); guard-dominance range rule for the segment count and lacing values; exhaustive tabulation of the page header-type function",
 		LevelText: "Every field of the 27-byte Ogg page header and of OpusHead is extracted from oggwriter and oggreader (offset, width, byte order, provenance, destination) and compared with the format tables; OpusTags' cursor-based layout is compared as a sequence of field kinds. The CRC is shown to use the same polynomial, table construction and update step on both sides, to be computed in the writer over the finished page while bytes 22..25 are still zero and stored afterwards, and to be recomputed in the reader with zero substituted for exactly the bytes the stored checksum occupies. The header-type function is tabulated for all 1024 inputs against the Ogg framing rules (BOS only on a first page, continuation flag on later pages, EOS only on the page that completes the packet).",
-		LevelNote: "Trusted: Ogg page layout (RFC 3533 §6) and OpusHead/OpusTags layout (RFC 7845 §5) as transcribed; evaluator semantics. Does not decide granule arithmetic, page sequencing across packets, multi-track interleaving or packet reassembly.",
+		LevelNote: "Trusted: Ogg page layout (RFC 3533 §6) and OpusHead/OpusTags layout (RFC 7845 §5) as transcribed; evaluator semantics. Does not decide page sequencing across packets, multi-track interleaving or packet reassembly.",
 		DesignRef: "DESIGN.md §5 C33",
 		Run:       runC33,
 	})
@@ -36,7 +36,7 @@ func runC33(c *Ctx) {
 	r.Rule("C33.R5", "granule arithmetic: opusSamplesPerFrame equals RFC 6716 Table 2 for all 256 TOC bytes; opusPacketFrameCount equals RFC 6716 section 3.2 for every (TOC, length, count byte); the per-packet count is their product on the packet's own TOC byte and is the only thing the granule position advances by", 38)
 	r.Rule("C33.R6", "last-page bookkeeping: every track field from which markTrackEndOfStream rebuilds the last page is recorded, in writePage's page loop, from fields of the page value that was just written", 4)
 	r.Rule("C33.R4", "header-type flags, tabulated over (requested type, first page, packet complete): first complete page keeps the requested flags, a first incomplete page drops EOS, later pages carry the continuation flag and EOS only when they complete the packet, BOS never appears on a later page; the BOS constant is passed exactly with the OpusHead payload; every Close path of a started writer emits EOS through markTrackEndOfStream / writeNilEndOfStreamPage", 5)
-	r.NotCovered = append(r.NotCovered, "granule position arithmetic (opusPacketSampleCount)", "page sequence numbering across packets and tracks", "packet reassembly from continued pages in the reader")
+	r.NotCovered = append(r.NotCovered, "page sequence numbering across packets and tracks", "packet reassembly from continued pages in the reader")
 	r.Trusted = append(r.Trusted, "RFC 3533 §6 page header, RFC 7845 §5.1/§5.2 OpusHead/OpusTags as transcribed in props/c33.go", "core/eval semantics; guard-dominance argument of core/guards.go")
 	l := core.NewLayout(c.P)
 	c33Page(c, l)
